@@ -7,6 +7,7 @@ import (
 	"fmt"
 	"math"
 	"sort"
+	"strconv"
 
 	"github.com/NVIDIA/KAI-scheduler/pkg/scheduler/framework"
 	"github.com/NVIDIA/KAI-scheduler/pkg/scheduler/plugins/proportion"
@@ -27,6 +28,7 @@ type fsq struct {
 	capped, deserved  float64
 	surplus           float64
 	satisfied         bool
+	usage             float64 // historical usage normalised to cluster capacity (time-based fair share)
 }
 
 func (o *FairShareOracle) SessionOpen(r *Run, ssn *framework.Session) {
@@ -70,6 +72,9 @@ func (o *FairShareOracle) SessionOpen(r *Run, ssn *framework.Session) {
 				q.deserved = math.Min(d, q.capped)
 				q.surplus = q.F - q.deserved
 				q.satisfied = q.F >= q.capped-1e-6
+				if u, ok := r.S.Config.Usage[id]; ok {
+					q.usage = map[string]float64{string(rs.GpuResource): u[0], string(rs.CpuResource): u[1], string(rs.MemoryResource): u[2]}[string(res)]
+				}
 				qs = append(qs, q)
 			}
 			o.laws(r, parent, string(res), T, qs)
@@ -103,18 +108,54 @@ func (o *FairShareOracle) laws(r *Run, parent, res string, T float64, qs []*fsq)
 	if sumSurplus > left+eps {
 		r.Fail("C09", "surplus_exceeds_remainder", "surplus handed out %v > what is left after deserved quotas %v; %s", sumSurplus, left, desc())
 	}
+	// effective over-quota weight under time-based fair share: w/sum(w of unsatisfied) + k*(that - usage), floored at 0
+	k := 0.0
+	if r.S.Config.Usage != nil {
+		k = 1.0 // the plugin's default
+		if r.S.Config.KValue != "" {
+			if v, err := strconv.ParseFloat(r.S.Config.KValue, 64); err == nil && v > 0 {
+				k = v
+			}
+		}
+	}
+	totalW := 0.0
+	for _, q := range qs {
+		if q.W > 0 && !q.satisfied {
+			totalW += q.W
+		}
+	}
+	effective := func(q *fsq) float64 {
+		if q.W <= 0 || totalW <= 0 {
+			return 0
+		}
+		nw := q.W / totalW
+		return math.Max(0, nw+k*(nw-q.usage))
+	}
 	if T-sumF >= 1+eps && T-sumDeserved > 0 {
 		for _, q := range qs {
-			if q.W > 0 && !q.satisfied {
+			if effective(q) > 1e-9 && !q.satisfied {
 				r.Fail("C09", "undistributed_surplus", "%v left undistributed although queue %s (weight %v) is unsatisfied (F=%v < capped request %v); %s", T-sumF, q.name, q.W, q.F, q.capped, desc())
 				break
 			}
 		}
 	}
 	// priorities: highest priority with a positive-weight queue unsatisfied by more than a unit
+	effectiveAtPrio := func(q *fsq) float64 { // surplus is divided priority by priority: weights are normalised within the priority
+		tw := 0.0
+		for _, o := range qs {
+			if o.prio == q.prio && o.W > 0 && !o.satisfied {
+				tw += o.W
+			}
+		}
+		if q.W <= 0 || tw <= 0 {
+			return 0
+		}
+		nw := q.W / tw
+		return math.Max(0, nw+k*(nw-q.usage))
+	}
 	hi, found := 0, false
 	for _, q := range qs {
-		if q.W > 0 && q.F < q.capped-1-eps {
+		if q.W > 0 && effectiveAtPrio(q) > 1e-9 && q.F < q.capped-1-eps {
 			if !found || q.prio > hi {
 				hi, found = q.prio, true
 			}
@@ -139,7 +180,8 @@ func (o *FairShareOracle) laws(r *Run, parent, res string, T float64, qs []*fsq)
 			if a == b || a.prio != b.prio || a.W <= 0 || b.W <= 0 || a.satisfied || b.satisfied {
 				continue
 			}
-			if a.W >= b.W && a.surplus < b.surplus-1-eps {
+			// (with historical usage the effective weight also depends on usage: only pairs ordered the same way in both)
+			if a.W >= b.W && a.usage <= b.usage && a.surplus < b.surplus-1-eps {
 				r.Fail("C09", "weight_monotonicity", "queue %s (weight %v) surplus %v < queue %s (weight %v) surplus %v by more than a unit; %s", a.name, a.W, a.surplus, b.name, b.W, b.surplus, desc())
 			}
 		}
